@@ -35,7 +35,7 @@ never collected slot) – both repaired in `/repo` (see `known_findings.json`), 
   `Segment::finalise`, chains the bases of the stream – in stream order, each exactly once – through `sibling` and changes
   no other pointer (attached slots keep their `sibling`, all slots their `parent` and `child`).
 
-Scope: the pipeline of `Model/Pass.lean` (either direction, reversals, the bidi step; no mirroring, no justification).  One clause is
+Scope: the pipeline of `Model/Pass.lean` (either direction, reversals, pass constraints, the bidi step, mirroring; no justification).  One clause is
 deliberately *not* claimed for arbitrary action programs: that every member of a child chain is a slot of the stream.  A
 program `delete; attr_set attach.to` on the first slot of the stream would attach the deleted slot to a live one; the
 model allows it (it does not model the loader), the real loader refuses such code (checked on the real loader), so this
